@@ -700,6 +700,56 @@ def setter_bypasses(project: Project, classes=None) -> List[dict]:
     return out
 
 
+def stale_cached_properties(project: Project, classes=None) -> List[dict]:
+    """Pattern H — `functools.cached_property` computes once per object and is never invalidated: sound only for what cannot
+    change after construction.  Reported when the cached body reads an attribute that some method other than `__init__`
+    assigns (a `fit` that sets it, a setter), or a public attribute of an estimator class (`get_params` / `set_params` /
+    a scikit-learn base: parameters are re-assignable by contract).  dict(fi, node, attr, why, cls)."""
+    out = []
+    for cq, c in sorted(project.classes.items()):
+        if classes is not None and cq not in classes:
+            continue
+        estimator = any(b.rsplit(".", 1)[-1] in ("BaseEstimator", "TransformerMixin") for b in c.bases) or \
+            any(k.lookup("set_params", project) is not None for k in [c])
+        assigned_later = {}
+        for k in c.mro(project):
+            for m in k.methods.values():
+                if not isinstance(m.node, ast.FunctionDef) or m.name in ("__init__", "__new__", "__setstate__") or not m.node.args.args:
+                    continue
+                me = m.node.args.args[0].arg
+                for n in ast.walk(m.node):
+                    tg = n.targets if isinstance(n, ast.Assign) else [n.target] if isinstance(n, (ast.AugAssign, ast.AnnAssign)) else []
+                    for t in tg:
+                        for x in ast.walk(t):
+                            if isinstance(x, ast.Attribute) and isinstance(x.value, ast.Name) and x.value.id == me \
+                                    and isinstance(x.ctx, ast.Store):
+                                assigned_later.setdefault(x.attr, m)
+        for m in c.methods.values():
+            if not isinstance(m.node, ast.FunctionDef) or not m.node.args.args:
+                continue
+            decos = [ast.unparse(d).split("(")[0].rsplit(".", 1)[-1] for d in m.node.decorator_list]
+            if "cached_property" not in decos:
+                continue
+            me = m.node.args.args[0].arg
+            reads = sorted({x.attr for x in ast.walk(m.node) if isinstance(x, ast.Attribute) and isinstance(x.value, ast.Name)
+                            and x.value.id == me and isinstance(x.ctx, ast.Load)})
+            for a in reads:
+                if a in assigned_later and assigned_later[a].name != m.name:
+                    w = assigned_later[a]
+                    out.append(dict(fi=m, node=m.node, attr=a, cls=c,
+                                    why=f"`{c.name}.{m.name}` is a cached_property (computed once per object, never invalidated) and "
+                                        f"reads `self.{a}`, which `{w.name}` assigns: after `{w.name}` runs again the cached value still "
+                                        f"describes the old `{a}`"))
+                    break
+                if estimator and not a.startswith("_") and c.lookup(a, project) is None:
+                    out.append(dict(fi=m, node=m.node, attr=a, cls=c,
+                                    why=f"`{c.name}.{m.name}` is a cached_property (computed once per object, never invalidated) and "
+                                        f"reads the estimator parameter `self.{a}`, which `set_params` / plain assignment may change at "
+                                        f"any time: later calls keep working with the first value"))
+                    break
+    return out
+
+
 def check(project: Project, rep, rule: str = "ST-CACHE"):
     """module-level caches written by the code a check analysed (and what it calls): a cache that is keyed by too little
     makes the analysed function's result depend on earlier calls — whatever that function computes.  Only the two memo
@@ -755,4 +805,7 @@ def check(project: Project, rep, rule: str = "ST-CACHE"):
     for r in setter_bypasses(project, reached):
         n += 1
         rep.refuted(rule, r["fi"], r["node"], r["why"], construct=f"{r['fi'].qualname}: setter of {r['prop']} bypassed")
+    for r in stale_cached_properties(project, reached):
+        n += 1
+        rep.refuted(rule, r["fi"], r["node"], r["why"], construct=f"{r['fi'].qualname}: cached_property over {r['attr']}")
     return n
